@@ -720,9 +720,14 @@ def j_c17(sh, a, b):
 def j_c18(sh, a, b):
     res = base(sh, a, b, {'STR', 'DUMP', 'RDP'})
     out = {}
+    redecoded = False
     for i in range(a, b):
         op = sh['ops'][i]
-        if op in ('STR a', 'STR b', 'DUMP a', 'DUMP b', 'STR da', 'STR db', 'DUMP da', 'DUMP db'):
+        if op.startswith('DEC a '):
+            redecoded = True      # from here on a and b are the same values re-used as decode targets
+        if op in ('STR a', 'STR b', 'DUMP a', 'DUMP b') and redecoded:
+            out[op + '2'] = (i, sh['go'][i])
+        elif op in ('STR a', 'STR b', 'DUMP a', 'DUMP b', 'STR da', 'STR db', 'DUMP da', 'DUMP db'):
             out[op] = (i, sh['go'][i])
     # the wire-decoded pair: two packets decoded from frames that differ only in the bytes of equally long credentials.
     # That is what the frames of a and b are *when every value is within MQTT's limits*; a user name of more than
@@ -742,8 +747,10 @@ def j_c18(sh, a, b):
             rdp[t[2]] = True
     decoded_pair_ok = inlimit and 'da' in rdp and 'db' in rdp
     for tag in ('STR', 'DUMP'):
-        for x, y, how in ((' a', ' b', 'API-built'), (' da', ' db', 'wire-decoded')):
+        for x, y, how in ((' a', ' b', 'API-built'), (' da', ' db', 'wire-decoded'), (' a2', ' b2', 're-used as decode targets')):
             if how == 'wire-decoded' and not decoded_pair_ok:
+                continue
+            if how.startswith('re-used') and not inlimit:
                 continue
             if tag + x in out and tag + y in out:
                 res['evals'] += 1
